@@ -124,10 +124,17 @@ impl StandardizedCell {
             .unwrap()
             .lattice_system();
         let (prim_transformation, conv_trans_linear) = match lattice_system {
-            LatticeSystem::Triclinic => (
-                standardize_triclinic_cell(&prim_cell.lattice),
-                Linear::identity(),
-            ),
+            LatticeSystem::Triclinic => {
+                // Keep the origin shift found in space-group identification (inversion center of P-1)
+                // and choose the basis by Niggli reduction of the transformed lattice.
+                let lattice = space_group
+                    .transformation
+                    .transform_lattice(&prim_cell.lattice);
+                (
+                    space_group.transformation.clone() * standardize_triclinic_cell(&lattice),
+                    Linear::identity(),
+                )
+            }
             LatticeSystem::Monoclinic => {
                 let trans_std_prim_to_conv = standardize_monoclinic_conv_cell(
                     &prim_cell.lattice,
